@@ -40,12 +40,12 @@ hsh_done(jose_io_t *io)
     unsigned int l = 0;
 
     if (EVP_DigestFinal(i->emc, hsh, &l) <= 0)
-        return SIZE_MAX;
+        return false;
 
     if (!i->next->feed(i->next, hsh, l) || !i->next->done(i->next))
-        return SIZE_MAX;
+        return false;
 
-    return l;
+    return true;
 }
 
 static void
